@@ -98,6 +98,10 @@ pub struct Profile {
     pub links_in_headings: bool,
     /// section headings (level 2+) may hold a bare wiki link ("## Meeting with [[n2]] today")
     pub wiki_in_section_headings: bool,
+    /// titles may begin with a tag in square brackets
+    pub bracket_titles: bool,
+    /// links to notes whose text is an image
+    pub image_links: bool,
     /// 0 = lists up to 13 items, 1 = also ~100, 2 = also ~1000
     pub long_lists: u8,
     /// internal links inside table cells (C05 leaves cells undecided)
@@ -129,6 +133,8 @@ impl Profile {
             force_title: None,
             links_in_headings: false,
             wiki_in_section_headings: false,
+            bracket_titles: false,
+            image_links: false,
             long_lists: 1,
             cell_internal_links: true,
             piped_wiki: true,
@@ -208,6 +214,11 @@ impl<'a> Gen<'a> {
         if !t.external && self.rng.chance(1, 10) {
             text = vec![Inl::W(if self.rng.chance(1, 3) { t.dest.to_uppercase() } else { t.dest.clone() })];
         }
+        if t.external && !t.dest.contains(':') && !t.dest.is_empty() && self.rng.chance(1, 3) {
+            // a path shown as itself ("[/etc/hosts](/etc/hosts)") stays an ordinary link: only an address with a scheme
+            // can go between angle brackets
+            return Some(Inl::Link { dest: t.dest.clone(), text: vec![Inl::W(t.dest)], title: None, style: LStyle::Inline });
+        }
         if t.external {
             // (an absolute path is no autolink: that takes a scheme)
             let mut style = if t.dest.contains(':') && self.rng.chance(1, 4) {
@@ -242,6 +253,12 @@ impl<'a> Gen<'a> {
             _ if self.p.piped_wiki => LStyle::WikiPiped,
             _ => LStyle::Inline,
         };
+        // a thumbnail that leads to a note: the link's text is an image (and stays one when titles are refreshed)
+        if style == LStyle::Inline && self.p.image_links && self.rng.chance(1, 12) {
+            let name = self.words.next(self.rng, false);
+            let alt = self.plain_words(1, 2);
+            text = vec![Inl::Image { dest: format!("img/{}.png", name), alt }];
+        }
         let title = if style == LStyle::Inline && self.rng.chance(1, 8) {
             Some(match self.word() {
                 Inl::W(w) => w,
@@ -445,6 +462,17 @@ impl<'a> Gen<'a> {
         if v.is_empty() {
             v.push(self.word());
         }
+        // a heading that ends in " #" (spelled setext: in ATX spelling the run would be the closing sequence)
+        if style == HStyle::Setext && self.rng.chance(1, 6) {
+            v.push(Inl::W("#".into()));
+        }
+        // a title that begins with a tag in brackets ("[WIP] Refactor"): links to the note take it as their text
+        if self.p.bracket_titles && level == 1 && self.rng.chance(1, 8) {
+            v.insert(0, Inl::W(if self.rng.chance(1, 3) { "[WIP]".into() } else { "[Draft".into() }));
+            if self.rng.chance(1, 3) {
+                v.push(Inl::W("v2]".into()));
+            }
+        }
         if !rich && self.p.wiki_in_section_headings && level >= 2 && self.rng.chance(1, 4) {
             let internal: Vec<Target> = self.p.targets.iter().filter(|t| !t.external && crate::mdscan::is_note_like(&t.dest)).cloned().collect();
             if !internal.is_empty() {
@@ -589,6 +617,10 @@ impl<'a> Gen<'a> {
             let mut first = self.inlines(1, 4, true, false);
             if first.is_empty() {
                 first.push(self.word());
+            }
+            // a placeholder item ("--" for "none"): with the bullet "-" it would read as a rule
+            if !ordered && !long && self.rng.chance(1, 30) {
+                first = vec![Inl::W("--".into())];
             }
             let block_first = self.p.item_block_first && !long && depth < self.p.max_depth && self.rng.chance(1, 12);
             if block_first {
